@@ -225,13 +225,20 @@ func Run(dir string, seed uint64, n int, tier string) error {
 		runs = 40
 	}
 	stores := [][]PodObs{}
+	allClean := true
 	for i := 0; i < runs; i++ {
-		stores = append(stores, concurrentSmoke(ctl.scheme, rng.Fork(uint64(1_000_000+i))))
+		st, clean := concurrentSmoke(ctl.scheme, rng.Fork(uint64(1_000_000+i)))
+		stores = append(stores, st)
+		allClean = allClean && clean
 	}
 	raceFree, raceNote := true, "race detector not used in this tier"
 	if tier == "thorough" {
 		raceFree, raceNote = raceSmoke(seed)
 	}
+	if !allClean {
+		raceNote += "; a ReserveGpuDevice / Sync call failed in a fault-free concurrent run"
+	}
+	raceFree = raceFree && allClean
 	out.Stats["concurrency_smoke"] = map[string]any{"runs": runs, "goroutines_per_run": smokeGoroutines,
 		"race_detector": raceNote, "what": "validation, not proof: real goroutines run ReserveGpuDevice / SyncForGpuGroup / SyncForNode on the same groups; the final store must satisfy clauses 2 and 3"}
 	sc := &Case{Note: "concurrency-smoke"}
